@@ -149,8 +149,9 @@ def run_build(case, drv):
 
 # ----------------------------------------------------------------------------- transformations
 def gen_transform(rng, tier):
-    op = rng.choice(["reorder", "reorder", "marginalize", "reduce", "normalize"])
-    case = rand_cpd_case(rng, normalised=(op != "normalize"))
+    op = rng.choice(["reorder", "reorder", "marginalize", "reduce", "reduce", "normalize"])
+    # reduce / marginalize renormalise their result: also tables of counts or rounded probabilities go in
+    case = rand_cpd_case(rng, normalised=(op == "reorder" or (op != "normalize" and rng.random() < .5)), maxpar=4 if op == "reduce" else 3)
     if op != "normalize" and not case["parents"]:
         return None
     ps = case["parents"]
@@ -228,6 +229,23 @@ def run_transform(case, drv):
         return fail(f"{op}: child is no longer the first axis", **tags)
     if not inplace and snapshot(cpd) != s0:
         return fail(f"{op}(inplace=False) modified the CPD", **tags)
+    # the result is an ordinary CPD: an exported table is a value, and a later edit + normalize() behaves like on a fresh CPD
+    exported = np.array(res.get_values(), dtype=float).copy()
+    held = res.get_values()
+    try:
+        res.values[...] = res.values * 3.0 + 1.0
+        res.normalize(inplace=True)
+    except Exception as e:
+        return fail(f"normalize() after {op} raised {type(e).__name__}: {e}", **tags)
+    if held.shape == exported.shape and not np.array_equal(np.asarray(held, dtype=float), exported):
+        pass            # the export may be a view of the table that was just edited on purpose: not judged
+    tab = [[3 * Fraction(x) + 1 for x in row] for row in m["values"]]
+    for j in range(len(tab[0]) if tab else 0):
+        tot = sum(tab[i][j] for i in range(len(tab)))
+        for i in range(len(tab)):
+            got = float(np.asarray(res.get_values())[i, j])
+            if not core.close(got, tab[i][j] / tot):
+                return fail(f"after {op}: values*3+1 followed by normalize() gives [{i}][{j}] = {got}, column-normalised value {float(tab[i][j] / tot)}", **tags)
     return ok(**tags)
 
 
